@@ -550,6 +550,32 @@ def pptx_shape(idx, ph, pars, y):
             f'<p:txBody><a:bodyPr/>{"".join(pptx_par(p) for p in pars)}</p:txBody></p:sp>')
 
 
+def pptx_from_slide_xml(slide_xml):
+    """Minimal one-slide package around a given slide part."""
+    files = {
+        "[Content_Types].xml": '<?xml version="1.0"?><Types xmlns="http://schemas.openxmlformats.org/package/2006/content-types">'
+                               '<Default Extension="rels" ContentType="application/vnd.openxmlformats-package.relationships+xml"/><Default Extension="xml" ContentType="application/xml"/>'
+                               '<Override PartName="/ppt/presentation.xml" ContentType="application/vnd.openxmlformats-officedocument.presentationml.presentation.main+xml"/>'
+                               '<Override PartName="/ppt/slides/slide1.xml" ContentType="application/vnd.openxmlformats-officedocument.presentationml.slide+xml"/></Types>',
+        "_rels/.rels": PKG_RELS % "ppt/presentation.xml",
+        "ppt/presentation.xml": f'<?xml version="1.0"?><p:presentation {PPTX_XMLNS}><p:sldIdLst><p:sldId id="256" r:id="rId1"/></p:sldIdLst></p:presentation>',
+        "ppt/_rels/presentation.xml.rels": '<?xml version="1.0"?><Relationships xmlns="http://schemas.openxmlformats.org/package/2006/relationships">'
+                                           f'<Relationship Id="rId1" Type="{R_NS}/slide" Target="slides/slide1.xml"/></Relationships>',
+        "ppt/slides/slide1.xml": slide_xml,
+        "ppt/slides/_rels/slide1.xml.rels": '<?xml version="1.0"?><Relationships xmlns="http://schemas.openxmlformats.org/package/2006/relationships"></Relationships>',
+    }
+    return _zip(files)
+
+
+def docx_from_document_xml(document_xml):
+    return _zip({"[Content_Types].xml": DOCX_CT, "_rels/.rels": PKG_RELS % "word/document.xml", "word/document.xml": document_xml,
+                 "word/_rels/document.xml.rels": '<?xml version="1.0"?><Relationships xmlns="http://schemas.openxmlformats.org/package/2006/relationships"></Relationships>'})
+
+
+def odf_from_content_xml(content_xml, mimetype):
+    return _zip({"mimetype": mimetype, "content.xml": content_xml, "META-INF/manifest.xml": ODF_MANIFEST % mimetype})
+
+
 def render_pptx(slides):
     files = {}
     ct = ['<Default Extension="rels" ContentType="application/vnd.openxmlformats-package.relationships+xml"/>', '<Default Extension="xml" ContentType="application/xml"/>',
